@@ -19,13 +19,27 @@ open SciVerif.Str
 
 theorem c18_join_format (env : Env) (ph : PH) (info : PortInfo) (carrier : S)
     (hi : env.portInfos.lookup ph.name = some info) (ht : info.typ = ['i'])
-    (hj : info.join = true) (hs : info.joinSep ≠ []) (hc : env.inPaths.lookup ph.name = some carrier) :
+    (hj : info.join = true) (hs : info.joinSep ≠ []) (hc : env.inPaths.lookup ph.name = some carrier)
+    (hne : ∀ m ∈ (env.subs.lookup ph.name).getD [], applyPathModifiers m ph.mods ≠ []) :
     replacement env ph =
       some (intercalate info.joinSep
         (((env.subs.lookup ph.name).getD []).map fun m => prependParent (applyPathModifiers m ph.mods))) := by
   have h1 : ['i'] ≠ ['o'] := by decide
   have h2 : ['i'] ≠ ['o', 's'] := by decide
   simp [replacement, hi, ht, h1, h2, hc, hj, hs]
+  exact ⟨hne, rfl⟩
+
+/-- a member whose modified path is empty makes the expansion fail (Go: index out of range in
+`prependParentDirPath`) instead of producing an empty word -/
+theorem c18_join_empty_member_fails (env : Env) (ph : PH) (info : PortInfo) (carrier : S)
+    (hi : env.portInfos.lookup ph.name = some info) (ht : info.typ = ['i'])
+    (hj : info.join = true) (hs : info.joinSep ≠ []) (hc : env.inPaths.lookup ph.name = some carrier)
+    (m : S) (hm : m ∈ (env.subs.lookup ph.name).getD []) (he : applyPathModifiers m ph.mods = []) :
+    replacement env ph = none := by
+  have h1 : ['i'] ≠ ['o'] := by decide
+  have h2 : ['i'] ≠ ['o', 's'] := by decide
+  simp [replacement, hi, ht, h1, h2, hc, hj, hs]
+  exact ⟨m, hm, he⟩
 
 /-- the separator sits between members only: n members, n-1 separators -/
 theorem intercalate_two (sep a b : S) : intercalate sep [a, b] = a ++ sep ++ b := rfl
@@ -63,6 +77,7 @@ example :
 end SciVerif.Fmt
 
 #print axioms SciVerif.Fmt.c18_join_format
+#print axioms SciVerif.Fmt.c18_join_empty_member_fails
 #print axioms SciVerif.Fmt.intercalate_two
 #print axioms SciVerif.Fmt.intercalate_nil
 #print axioms SciVerif.Fmt.intercalate_one
